@@ -11,7 +11,7 @@
     an initial state with empty maps.  [owns_o pc] = the obtain-map channel the goroutine is the
     worker for, [waits_on pc] = the channel it waits on. *)
 From Coq Require Import List ZArith Bool Lia.
-From CM Require Import Gen.Consts SingleFlight.Model SingleFlight.Proofs SingleFlight.Check.
+From CM Require Import Gen.Consts SingleFlight.Model SingleFlight.Proofs SingleFlight.Check SingleFlight.Monitor.
 Import ListNotations.
 Open Scope Z_scope.
 
@@ -308,6 +308,54 @@ Theorem C13_no_handshake_returns_the_empty_certificate : forall s, reachable s -
 Proof. exact no_empty_result. Qed.
 Print Assumptions C13_no_handshake_returns_the_empty_certificate.
 
+(** ** what the monitor's clauses mean as invariants (SingleFlight/Monitor.v) *)
+
+(** wait-map quiescence (clauses "a registration has a live goroutine behind it" of [point_ok] and
+    "both maps empty at the end" of [end_ok]): in every reachable state a name registered in either
+    map has an unfinished goroutine of that name that holds / owns exactly that channel; hence when
+    every goroutine has finished both maps are empty *)
+Theorem C13_registration_has_a_live_goroutine : forall s, reachable s ->
+  forall n ch, lmap s n = Some ch \/ omap s n = Some ch ->
+  exists t th, thr s t = Some th /\ t_name th = n /\ finished (t_pc th) = false /\
+    (t_ld th = Some ch \/ owns_o (t_pc th) = Some ch).
+Proof. exact registration_has_live_goroutine. Qed.
+Print Assumptions C13_registration_has_a_live_goroutine.
+
+Theorem C13_maps_empty_when_everybody_has_finished : forall s, reachable s ->
+  (forall t th, thr s t = Some th -> is_done (pos_of s th) = true) ->
+  forall n, lmap s n = None /\ omap s n = None.
+Proof.
+  intros s R F. apply (maps_empty_when_all_finished s R).
+  intros t th Ht. apply (finished_is_done s th). exact (F t th Ht).
+Qed.
+Print Assumptions C13_maps_empty_when_everybody_has_finished.
+
+(** clause "no handshake has returned the empty certificate" of [point_ok] *)
+Theorem C13_monitor_no_done_empty : forall s, reachable s ->
+  forall t th, thr s t = Some th -> pos_of s th <> DoneEmpty.
+Proof. exact no_done_empty_position. Qed.
+Print Assumptions C13_monitor_no_done_empty.
+
+(** clause "once the issuer has delivered for a name, nobody is at the issuer for that name again
+    until that certificate is revoked" of [run_ok], as an invariant of all runs in which nobody else
+    writes the bundle (any number of goroutines, any interleaving, any outcomes, evictions and
+    revocations included): a goroutine is at the issuer for a renewal with an unrevoked certificate in
+    hand only while the stored bundle is due; so once the bundle is not due — and it stays so —
+    whoever the harness sees at the issuer for that name holds a revoked certificate *)
+Theorem C13_issuer_asked_only_while_the_bundle_is_due : forall s, creachable s ->
+  (forall t th ch c bg st, thr s t = Some th -> t_pc th = PRenIssue ch c bg st -> revoked c = false ->
+     exists s0, store s (t_name th) = Some s0 /\ needs_renew s0 = true) /\
+  (forall t th s0, thr s t = Some th -> store s (t_name th) = Some s0 -> needs_renew s0 = false ->
+     pos_of s th = AtIssue -> exists ch c bg st, t_pc th = PRenIssue ch c bg st /\ revoked c = true).
+Proof. intros s R. split; [exact (issuer_asked_only_while_due s R)|exact (at_issuer_only_while_due s R)]. Qed.
+Print Assumptions C13_issuer_asked_only_while_the_bundle_is_due.
+
+Theorem C13_renewed_bundle_stays_renewed : forall s l s' n, store_calm l -> step s l = Some s' ->
+  (exists s0, store s n = Some s0 /\ needs_renew s0 = false) ->
+  exists s0, store s' n = Some s0 /\ needs_renew s0 = false.
+Proof. exact calm_store_stays_fresh. Qed.
+Print Assumptions C13_renewed_bundle_stays_renewed.
+
 (** the statement shapes of handshake.go that the LTS takes as atomic steps / literals are the
     ones in the source today (read by the translator on every run; a change breaks this proof) *)
 Theorem C13_source_shape_is_the_modelled_one :
@@ -341,3 +389,14 @@ Qed.
 (** the serving hypothesis is satisfiable *)
 Example C13_ex_serving : serving (Cert 1 Due false).
 Proof. split; reflexivity. Qed.
+
+(** the hypotheses are satisfiable: the run of [C13_ex_reachable] touches nobody's bundle *)
+Example C13_ex_creachable : exists s, creachable s /\ exists t th ch, thr s t = Some th /\ waits_on (t_pc th) = Some ch.
+Proof.
+  destruct (run (init (fun _ => []) (fun _ => None) 1%nat) ex_run) as [s|] eqn:E; [|vm_compute in E; discriminate].
+  exists s. split.
+  - exists (fun _ => []), (fun _ => None), 1%nat, ex_run. split; [|exact E].
+    unfold ex_run. repeat constructor.
+  - vm_compute in E. inversion E. exists 1%nat. eexists. exists 0%nat. cbn. split; reflexivity.
+Qed.
+
